@@ -255,11 +255,19 @@ func c05MCQ(cs c05Case) []c05Fail {
 		if after := dumpMember(x); after != before {
 			add("mcq/state-changed-below-quorum", "stored state changed while below the member-count quorum: before %s after %s", before, after)
 		}
-		if _, err := x.Emb.NewDMap("other"); simcluster.ErrClass(err) != "clusterquorum" {
-			add("mcq/newdmap-below-quorum", "NewDMap below the quorum returned %v, expected the cluster-quorum error", err)
+		// every attempt to open a DMap: one that was never opened on this member and one that was
+		// opened (and written) while the quorum was met
+		for _, name := range []string{"other", "d"} {
+			if _, err := x.Emb.NewDMap(name); simcluster.ErrClass(err) != "clusterquorum" {
+				add("mcq/newdmap-below-quorum/name="+map[string]string{"other": "never-opened", "d": "opened-before"}[name], "NewDMap(%q) below the quorum returned %v, expected the cluster-quorum error", name, err)
+			}
 		}
-	} else if _, err := x.Emb.NewDMap("other"); err != nil {
-		add("mcq/newdmap-with-quorum", "NewDMap with the quorum met failed: %v", err)
+	} else {
+		for _, name := range []string{"other", "d"} {
+			if _, err := x.Emb.NewDMap(name); err != nil {
+				add("mcq/newdmap-with-quorum", "NewDMap(%q) with the quorum met failed: %v", name, err)
+			}
+		}
 	}
 	return fs
 }
